@@ -753,3 +753,57 @@ func (w *World) nilTests(fn *ssa.Function, v ssa.Value) []errTest {
 	})
 	return out
 }
+
+// argLeaf is one origin of an argument position: the call site and the (resolved) value
+// passed there, followed through wrappers that merely forward one of their own parameters.
+type argLeaf struct {
+	fn *ssa.Function
+	in ssa.CallInstruction
+	v  ssa.Value
+}
+
+// argOrigins lists what the module's static call sites of fn pass at parameter position idx
+// (CallCommon.Args index); a caller that passes one of its own parameters on is looked
+// through (depth ≤ 3).
+func (w *World) argOrigins(fn *ssa.Function, idx int, depth int) []argLeaf {
+	var out []argLeaf
+	if depth > 3 {
+		return out
+	}
+	for _, g := range w.ModFuncs {
+		allInstrs(g, func(in ssa.Instruction) {
+			ci, ok := in.(ssa.CallInstruction)
+			if !ok {
+				return
+			}
+			c := ci.Common()
+			if c.StaticCallee() != fn || idx >= len(c.Args) {
+				return
+			}
+			v := w.Resolve(c.Args[idx])
+			if p, ok := v.(*ssa.Parameter); ok && p.Parent() == g {
+				for i, q := range g.Params {
+					if q == p {
+						sub := w.argOrigins(g, i, depth+1)
+						if len(sub) > 0 {
+							out = append(out, sub...)
+							return
+						}
+					}
+				}
+			}
+			out = append(out, argLeaf{g, ci, v})
+		})
+	}
+	return out
+}
+
+// paramIdx returns the index of p among its function's parameters (-1 if none).
+func paramIdxOf(p *ssa.Parameter) int {
+	for i, q := range p.Parent().Params {
+		if q == p {
+			return i
+		}
+	}
+	return -1
+}
